@@ -11,6 +11,7 @@ import (
 	"github.com/theQRL/go-qrllib/qrllib-js/xmssjs"
 	"github.com/theQRL/go-qrllib/xmss"
 
+	"verifmon/ref/xmssref"
 	"verifmon/rt"
 )
 
@@ -172,7 +173,17 @@ func nonHex(rng *rt.Rand, good string) []string {
 
 func nonHex1(rng *rt.Rand, good string) []string {
 	mid := len(good) / 2
-	return []string{
+	// every byte value that is not a hexadecimal digit, in place of one digit (rotating positions)
+	var all []string
+	for b := 0; b < 256; b++ {
+		c := byte(b)
+		if (c >= '0' && c <= '9') || (c >= 'a' && c <= 'f') || (c >= 'A' && c <= 'F') {
+			continue
+		}
+		p := (mid + b*7) % len(good)
+		all = append(all, good[:p]+string([]byte{c})+good[p+1:])
+	}
+	return append(all, []string{
 		good[:len(good)-1],                     // odd length
 		good[:mid] + "g" + good[mid+1:],        // not a hex digit
 		good[:mid] + " " + good[mid+1:],        // embedded space
@@ -182,7 +193,7 @@ func nonHex1(rng *rt.Rand, good string) []string {
 		"x" + good[1:],                         //
 		good + "zz",                            //
 		"0x" + good[:mid] + "-" + good[mid+1:], //
-	}
+	}...)
 }
 
 func prefixPattern(sa, sb int) string {
@@ -256,7 +267,7 @@ func c16Run(j *rt.Job, seed uint64, r *rt.Rec) {
 		r.Sample(map[string]interface{}{"scheme": "dilithium", "keys": j.Int("n"), "prefix_patterns": 16})
 	case "xmss":
 		for t := 0; t < j.Int("n"); t++ {
-			h := []int{4, 4, 6, 4}[t%4]
+			h := []int{4, 8, 6, 4}[t%4]
 			c := XCfg{H: h, HF: j.Int("hf"), Seed: rt.Hex(rng.Bytes(48))}
 			k := c.newLib()
 			pkA := k.GetPK()
@@ -313,6 +324,22 @@ func c16Run(j *rt.Job, seed uint64, r *rt.Rec) {
 						return
 					}
 					if !c16Check(r, c16Case{Fn: "IsValidDilithiumAddress", A: render(ad, st), Hexy: true}, "xmss-address/"+prefixPattern(st, 0)) {
+						return
+					}
+				}
+			}
+			// every supported height: triples that are valid by construction (reference, no tree) through the wrapper
+			if t == 0 {
+				for hh := 4; hh <= 30; hh += 2 {
+					sec := xmssref.Expand(rng.Bytes(48))
+					hfx := (hh/2 + j.Int("hf")) % 3
+					nn := uint64(1) << uint(hh)
+					sm := []byte(fmt.Sprintf("height %d", hh))
+					ssig, spk := sec.SparseTriple(xmssref.Hash(hfx), hh, uint32(rng.U64()%nn), sm, rng.Bytes(32*hh), [3]byte{byte(hfx), byte(hh / 2), 0})
+					st := rng.Intn(4)
+					if !c16Check(r, c16Case{Fn: "XMSSVerify", Msg: rt.Hex(sm), A: render(ssig, st), B: render(spk, 3-st), Hexy: true}, fmt.Sprintf("valid-height-%02d", hh)) ||
+						!c16Check(r, c16Case{Fn: "XMSSVerify", Msg: rt.Hex(sm), A: render(flipBit(ssig, rng.Intn(len(ssig)*8)), st), B: render(spk, st), Hexy: true}, fmt.Sprintf("bitflip-height-%02d", hh)) ||
+						!c16Check(r, c16Case{Fn: "GetXMSSAddressFromPK", A: render(spk, st), Hexy: true}, fmt.Sprintf("pk-height-%02d", hh)) {
 						return
 					}
 				}
